@@ -22,6 +22,9 @@ global size_of usize == 8;
 //@extract enum pybigtools/src/lib.rs Summary
 //@rule R8
 //@end
+//@extract struct bigtools/src/bbi.rs Value
+//@rule R8
+//@end
 
 // =====================================================================================
 // shims (ASSUMED; listed in NOTES.md)
@@ -38,6 +41,10 @@ impl IntToF64 for u64 { open spec fn as_int(self) -> int { self as int } }
 impl IntToF64 for usize { open spec fn as_int(self) -> int { self as int } }
 #[verifier::external_body]
 pub fn as_f64<T: IntToF64>(x: T) -> (r: f64) ensures r == f64_of_int(x.as_int()) { unimplemented!() }
+/// `v as f64` for an f32 (exact widening; uninterpreted here)
+pub uninterp spec fn f64_of(x: f32) -> f64;
+#[verifier::external_body]
+pub fn f64_of_f32(x: f32) -> (r: f64) ensures r == f64_of(x) { x as f64 }
 /// the value a result variable holds before the carved `match` assigns it: unknown
 #[verifier::external_body]
 pub fn unset_f64() -> (r: f64) { unimplemented!() }
@@ -190,12 +197,16 @@ spec fn bb_finish(flags: Seq<i32>, cells: Seq<f64>, summary: Summary, missing: f
         Summary::Mean => if some_gt(flags, 0) { sum_clamped_spec(cells, 0.0f64).div_spec(f64_of_int(isum(flags))) } else { missing },
     }
 }
+/// bigWig accumulator before a value is added: the stored one, or the initial one (Min/Max: NaN so that f64::min/max return the first value; Mean: 0.0)
+spec fn acc0(d: Option<(i32, f64)>, summary: Summary) -> (i32, f64) {
+    match d { Some(t) => t, None => match summary { Summary::Mean => (0i32, 0.0f64), _ => (0i32, spec_f64_nan()) } }
+}
 pub open spec fn imax(a: int, b: int) -> int { if a >= b { a } else { b } }
 pub open spec fn imin(a: int, b: int) -> int { if a <= b { a } else { b } }
 
 // ---- (a) to_array_bins: finalisation of a popped bin, inside the interval loop ----
 //@extract fn pybigtools/src/lib.rs to_array_bins
-//@presub /\A.*?let front = bin_data\.pop_front\(\)\.unwrap\(\);\s*let bin = front\.0;\s*(match summary \{.*?)\n\s*\} else \{\s*break;.*\Z/ => fn finish_bin_bwb_loop(front3: Option<(i32, f64)>, summary: Summary, missing: f64) -> f64 {\n    let mut r__: f64 = unset_f64();\n    \1\n    r__\n} min=1 count=1
+//@presub /\A.*?let front = bin_data\.pop_front\(\)\.unwrap\(\);\s*let bin = front\.0;\s*(match summary \{.*?)\n\s*\} else \{\s*break;.*\Z/ => fn finish_bin_bwb_loop(front3: Option<(i32, f64)>, summary: Summary, missing: f64, bin_size: f64) -> f64 {\n    let mut r__: f64 = unset_f64();\n    \1\n    r__\n} min=1 count=1
 //@presub /\s+\.(?=[a-z_0-9])/ => . min=0
 //@presub /\bfront\.3\b/ => front3 min=0
 //@presub /\bv\[bin\] = / => r__ =  min=0
@@ -217,7 +228,7 @@ pub open spec fn imin(a: int, b: int) -> int { if a <= b { a } else { b } }
 
 // ---- (a) to_array_bins: finalisation of a popped bin, the closing drain loop ----
 //@extract fn pybigtools/src/lib.rs to_array_bins
-//@presub /\A.*while let Some\(front\) = bin_data\.pop_front\(\) \{\s*let bin = front\.0;\s*(match summary \{.*?)\n\s*\}\s*Ok\(\(\)\)\s*\}\s*\Z/ => fn finish_bin_bwb_drain(front3: Option<(i32, f64)>, summary: Summary, missing: f64) -> f64 {\n    let mut r__: f64 = unset_f64();\n    \1\n    r__\n} min=1 count=1
+//@presub /\A.*while let Some\(front\) = bin_data\.pop_front\(\) \{\s*let bin = front\.0;\s*(match summary \{.*?)\n\s*\}\s*Ok\(\(\)\)\s*\}\s*\Z/ => fn finish_bin_bwb_drain(front3: Option<(i32, f64)>, summary: Summary, missing: f64, bin_size: f64) -> f64 {\n    let mut r__: f64 = unset_f64();\n    \1\n    r__\n} min=1 count=1
 //@presub /\s+\.(?=[a-z_0-9])/ => . min=0
 //@presub /\bfront\.3\b/ => front3 min=0
 //@presub /\bv\[bin\] = / => r__ =  min=0
@@ -239,7 +250,7 @@ pub open spec fn imin(a: int, b: int) -> int { if a <= b { a } else { b } }
 
 // ---- (a) to_array_zoom: finalisation of a popped bin, inside the interval loop ----
 //@extract fn pybigtools/src/lib.rs to_array_zoom
-//@presub /\A.*?let front = bin_data\.pop_front\(\)\.unwrap\(\);\s*let bin = front\.0;\s*(match summary \{.*?)\n\s*\} else \{\s*break;.*\Z/ => fn finish_bin_bwz_loop(front3: Option<(i32, f64)>, summary: Summary, missing: f64) -> f64 {\n    let mut r__: f64 = unset_f64();\n    \1\n    r__\n} min=1 count=1
+//@presub /\A.*?let front = bin_data\.pop_front\(\)\.unwrap\(\);\s*let bin = front\.0;\s*(match summary \{.*?)\n\s*\} else \{\s*break;.*\Z/ => fn finish_bin_bwz_loop(front3: Option<(i32, f64)>, summary: Summary, missing: f64, bin_size: f64) -> f64 {\n    let mut r__: f64 = unset_f64();\n    \1\n    r__\n} min=1 count=1
 //@presub /\s+\.(?=[a-z_0-9])/ => . min=0
 //@presub /\bfront\.3\b/ => front3 min=0
 //@presub /\bv\[bin\] = / => r__ =  min=0
@@ -261,7 +272,7 @@ pub open spec fn imin(a: int, b: int) -> int { if a <= b { a } else { b } }
 
 // ---- (a) to_array_zoom: finalisation of a popped bin, the closing drain loop ----
 //@extract fn pybigtools/src/lib.rs to_array_zoom
-//@presub /\A.*while let Some\(front\) = bin_data\.pop_front\(\) \{\s*let bin = front\.0;\s*(match summary \{.*?)\n\s*\}\s*Ok\(\(\)\)\s*\}\s*\Z/ => fn finish_bin_bwz_drain(front3: Option<(i32, f64)>, summary: Summary, missing: f64) -> f64 {\n    let mut r__: f64 = unset_f64();\n    \1\n    r__\n} min=1 count=1
+//@presub /\A.*while let Some\(front\) = bin_data\.pop_front\(\) \{\s*let bin = front\.0;\s*(match summary \{.*?)\n\s*\}\s*Ok\(\(\)\)\s*\}\s*\Z/ => fn finish_bin_bwz_drain(front3: Option<(i32, f64)>, summary: Summary, missing: f64, bin_size: f64) -> f64 {\n    let mut r__: f64 = unset_f64();\n    \1\n    r__\n} min=1 count=1
 //@presub /\s+\.(?=[a-z_0-9])/ => . min=0
 //@presub /\bfront\.3\b/ => front3 min=0
 //@presub /\bv\[bin\] = / => r__ =  min=0
@@ -329,7 +340,7 @@ pub open spec fn imin(a: int, b: int) -> int { if a <= b { a } else { b } }
 
 // ---- (b) to_entry_array_bins: finalisation of a popped bin over its per-base cells, inside the interval loop ----
 //@extract fn pybigtools/src/lib.rs to_entry_array_bins
-//@presub /\A.*?let front = bin_data\.pop_front\(\)\.unwrap\(\);\s*let bin = front\.0;\s*(match summary \{.*?)\n\s*\} else \{\s*break;.*\Z/ => fn finish_entry_bin_bbb_loop(front3: Vec<i32>, front4: Vec<f64>, summary: Summary, missing: f64) -> f64 {\n    let mut r__: f64 = unset_f64();\n    \1\n    r__\n} min=1 count=1
+//@presub /\A.*?let front = bin_data\.pop_front\(\)\.unwrap\(\);\s*let bin = front\.0;\s*(match summary \{.*?)\n\s*\} else \{\s*break;.*\Z/ => fn finish_entry_bin_bbb_loop(front3: Vec<i32>, front4: Vec<f64>, summary: Summary, missing: f64, bin_size: f64) -> f64 {\n    let mut r__: f64 = unset_f64();\n    \1\n    r__\n} min=1 count=1
 //@presub /\s+\.(?=[a-z_0-9])/ => . min=0
 //@presub /\bv\[bin\] = / => r__ =  min=0
 //@presub /front\.4\.into_iter\(\)\.reduce\(\|(\w+), (\w+)\| \1\.(min|max)\(\2\)\)/ => reduce_\3(&front4) min=0
@@ -364,7 +375,7 @@ pub open spec fn imin(a: int, b: int) -> int { if a <= b { a } else { b } }
 
 // ---- (b) to_entry_array_bins: finalisation of a popped bin over its per-base cells, the closing drain loop ----
 //@extract fn pybigtools/src/lib.rs to_entry_array_bins
-//@presub /\A.*while let Some\(front\) = bin_data\.pop_front\(\) \{\s*let bin = front\.0;\s*(match summary \{.*?)\n\s*\}\s*Ok\(\(\)\)\s*\}\s*\Z/ => fn finish_entry_bin_bbb_drain(front3: Vec<i32>, front4: Vec<f64>, summary: Summary, missing: f64) -> f64 {\n    let mut r__: f64 = unset_f64();\n    \1\n    r__\n} min=1 count=1
+//@presub /\A.*while let Some\(front\) = bin_data\.pop_front\(\) \{\s*let bin = front\.0;\s*(match summary \{.*?)\n\s*\}\s*Ok\(\(\)\)\s*\}\s*\Z/ => fn finish_entry_bin_bbb_drain(front3: Vec<i32>, front4: Vec<f64>, summary: Summary, missing: f64, bin_size: f64) -> f64 {\n    let mut r__: f64 = unset_f64();\n    \1\n    r__\n} min=1 count=1
 //@presub /\s+\.(?=[a-z_0-9])/ => . min=0
 //@presub /\bv\[bin\] = / => r__ =  min=0
 //@presub /front\.4\.into_iter\(\)\.reduce\(\|(\w+), (\w+)\| \1\.(min|max)\(\2\)\)/ => reduce_\3(&front4) min=0
@@ -399,7 +410,7 @@ pub open spec fn imin(a: int, b: int) -> int { if a <= b { a } else { b } }
 
 // ---- (b) to_entry_array_zoom: finalisation of a popped bin over its per-base cells, inside the interval loop ----
 //@extract fn pybigtools/src/lib.rs to_entry_array_zoom
-//@presub /\A.*?let front = bin_data\.pop_front\(\)\.unwrap\(\);\s*let bin = front\.0;\s*(match summary \{.*?)\n\s*\} else \{\s*break;.*\Z/ => fn finish_entry_bin_bbz_loop(front3: Vec<i32>, front4: Vec<f64>, summary: Summary, missing: f64) -> f64 {\n    let mut r__: f64 = unset_f64();\n    \1\n    r__\n} min=1 count=1
+//@presub /\A.*?let front = bin_data\.pop_front\(\)\.unwrap\(\);\s*let bin = front\.0;\s*(match summary \{.*?)\n\s*\} else \{\s*break;.*\Z/ => fn finish_entry_bin_bbz_loop(front3: Vec<i32>, front4: Vec<f64>, summary: Summary, missing: f64, bin_size: f64) -> f64 {\n    let mut r__: f64 = unset_f64();\n    \1\n    r__\n} min=1 count=1
 //@presub /\s+\.(?=[a-z_0-9])/ => . min=0
 //@presub /\bv\[bin\] = / => r__ =  min=0
 //@presub /front\.4\.into_iter\(\)\.reduce\(\|(\w+), (\w+)\| \1\.(min|max)\(\2\)\)/ => reduce_\3(&front4) min=0
@@ -434,7 +445,7 @@ pub open spec fn imin(a: int, b: int) -> int { if a <= b { a } else { b } }
 
 // ---- (b) to_entry_array_zoom: finalisation of a popped bin over its per-base cells, the closing drain loop ----
 //@extract fn pybigtools/src/lib.rs to_entry_array_zoom
-//@presub /\A.*while let Some\(front\) = bin_data\.pop_front\(\) \{\s*let bin = front\.0;\s*(match summary \{.*?)\n\s*\}\s*Ok\(\(\)\)\s*\}\s*\Z/ => fn finish_entry_bin_bbz_drain(front3: Vec<i32>, front4: Vec<f64>, summary: Summary, missing: f64) -> f64 {\n    let mut r__: f64 = unset_f64();\n    \1\n    r__\n} min=1 count=1
+//@presub /\A.*while let Some\(front\) = bin_data\.pop_front\(\) \{\s*let bin = front\.0;\s*(match summary \{.*?)\n\s*\}\s*Ok\(\(\)\)\s*\}\s*\Z/ => fn finish_entry_bin_bbz_drain(front3: Vec<i32>, front4: Vec<f64>, summary: Summary, missing: f64, bin_size: f64) -> f64 {\n    let mut r__: f64 = unset_f64();\n    \1\n    r__\n} min=1 count=1
 //@presub /\s+\.(?=[a-z_0-9])/ => . min=0
 //@presub /\bv\[bin\] = / => r__ =  min=0
 //@presub /front\.4\.into_iter\(\)\.reduce\(\|(\w+), (\w+)\| \1\.(min|max)\(\2\)\)/ => reduce_\3(&front4) min=0
@@ -525,6 +536,36 @@ pub open spec fn imin(a: int, b: int) -> int { if a <= b { a } else { b } }
                     forall|q: int| 0 <= q < covered@.len() && !(range.start <= q < k__) ==> #[trigger] covered@[q] == old(covered)@[q],
 //@at /let i = cell_mut\(data, k__\);/ after
                 proof { float_ax::float_det(); }
+//@end
+
+// ---- (d) to_array_bins: one value meets one bin: the accumulation step (`get_or_insert_with` + `match summary`) ----
+// `let (c, v) = data.get_or_insert_with(|| INIT);` -> the accumulator is copied out (`INIT` when absent), `c` / `v` borrow the
+// copy's two fields, and the copy is written back after the carved text (same effect as updating through the reference).
+//@extract fn pybigtools/src/lib.rs to_array_bins
+//@presub /\A.*?\n(\s*let \(c, v\) = data\.get_or_insert_with\(.*?)\n\s*\}\n\s*\}\n\s*while let Some\(front\) = bin_data\.pop_front\(\) \{.*\Z/ => fn accumulate_bwb(data: &mut Option<(i32, f64)>, summary: Summary, bin_start: &i32, bin_end: &i32, interval_start: i32, interval_end: i32, interval: &Value) {\n\1\n            *data = Some(t__);\n} min=1 count=1
+//@presub /let \(c, v\) = data\.get_or_insert_with\(\|\| \{(.*?)\n\s*\}\);/ => let mut t__: (i32, f64) = match *data { Some(t) => t, None => {\1\n            } };\n            let c = &mut t__.0;\n            let v = &mut t__.1; min=1 count=1
+//@rule R5
+//@rule R12c
+//@sub /\((\w+) as f64\)/ => as_f64(\1) min=0
+//@sub /\b(\w+\.value) as f64\b/ => f64_of_f32(\1) min=0
+//@sig
+    requires
+        [[L: acc/pre_bin_and_value_are_intervals]]
+        0 <= *bin_start <= *bin_end, 0 <= interval_start <= interval_end,
+        [[L: acc/pre_covered_count_cannot_overflow]]
+        // the count of a bin never exceeds its width (values are disjoint); stated, not proved here
+        *old(data) matches Some(t) ==> 0 <= t.0 && t.0 + (*bin_end - *bin_start) <= i32::MAX && t.0 - (interval_end - interval_start) >= i32::MIN,
+    ensures
+        [[L: acc/min_folds_the_value_with_f64_min_from_nan]]
+        summary is Min ==> *final(data) == Some((acc0(*old(data), summary).0, fmin(acc0(*old(data), summary).1, f64_of(interval.value)))),
+        [[L: acc/max_folds_the_value_with_f64_max_from_nan]]
+        summary is Max ==> *final(data) == Some((acc0(*old(data), summary).0, fmax(acc0(*old(data), summary).1, f64_of(interval.value)))),
+        [[L: acc/mean_adds_overlap_times_value_and_counts_the_overlap]]
+        summary is Mean ==> *final(data) == Some((
+            (acc0(*old(data), summary).0 + (imin(*bin_end as int, interval_end as int) - imax(*bin_start as int, interval_start as int))) as i32,
+            acc0(*old(data), summary).1.add_spec(f64_of_int(imin(*bin_end as int, interval_end as int) - imax(*bin_start as int, interval_start as int)).mul_spec(f64_of(interval.value))))),
+//@open
+    proof { float_ax::float_det(); }
 //@end
 
 } // verus!
